@@ -190,7 +190,12 @@ class RuleGen:
 
     def new_cap(self, prefix="c") -> str:
         self.ncap += 1
-        return f"&{prefix}{self.ncap}" + self.rng.choice(["", "", "", "X", "-Tmp"])
+        used = {n for n, _ in self.ocaps} | {n for n, _ in self.icaps}
+        if used and self.rng.random() < 0.15:
+            twin = self.rng.choice(sorted(used)).swapcase()      # names that differ only in letter case are different names
+            if twin not in used and twin.lower() != twin.upper():
+                return twin
+        return f"&{prefix}{self.ncap}" + self.rng.choice(["", "", "", "X", "-Tmp", ".v2", ".a.b"])
 
     def operand_node(self, field: str, depth=0):
         f, rng = self.feat, self.rng
@@ -284,7 +289,7 @@ class RuleGen:
         if same and rng.random() < 0.75:
             return rng.choice(same) + suffix(w)
         if self.allow_def and rng.random() < 0.7:
-            base = prefix + rng.choice(["", "-1", "-2", "_a", "-Acc", "_B", "-Ptr2"])
+            base = prefix + rng.choice(["", "-1", "-2", "_a", "-Acc", "_B", "-Ptr2", ".acc", ".r.1", "-1", "_a"])
             if any(b == base for b, _, _ in self.regcaps):
                 return None
             self.regcaps.append((base, fam, letter))
